@@ -217,7 +217,7 @@ def a4(ctx):
             ok = len(nones) == 1 and zero in ctx.facts_of(ev, nones[0])
             if ok:
                 # nothing but the ro test and the zero test precedes it
-                pre = [e for e in res.log if e["seq"] < nones[0]["seq"] and e["kind"] in ("call", "store") and not e["chain"] and b.dominates(e["bb"], nones[0]["bb"]) and e["callee"] != "std::mem::size_of"]
+                pre = [e for e in res.log if e["seq"] < nones[0]["seq"] and e["kind"] in ("call", "store") and not e["chain"] and b.dominates(e["bb"], nones[0]["bb"]) and not e.get("callee", "").endswith("mem::size_of")]
                 ok = not pre
             yield Ob(key_of("C03-A4", b.path, "zero-size-early"), ok, "Ok(None) under %s, before any header access" % show(zero), ctx.loc(nones[0]) if nones else b.loc())
         b = ctx.facts.one(r"^<%s::Arena as allocator::Allocator>::alloc$" % fl)
